@@ -52,6 +52,8 @@ ExpectErr(st, e) ==
          IF e.name \in DOMAIN st.files THEN {} ELSE {"NotFound"}
     [] e.op = "seek" ->
          LET t == SeekTarget(st, e) IN IF t < 0 \/ t > Len_(st) THEN {"InvalidInput"} ELSE {}
+    [] e.op = "set_len" ->       \* lengths no compound file can hold are refused (symbolic: beyond 2^63)
+         IF Has(e, "sym") /\ e.sym # "" THEN {"InvalidInput"} ELSE {}
     [] OTHER -> {}
 
 WithHd(st, hd) == [st EXCEPT !.hd = hd]
